@@ -351,9 +351,17 @@ echs_instant_rescale(echs_instant_t i, echs_scale_t tgt)
 			break;
 		case SCALE_HIJRI_UMMULQURA:
 			d = ht2mjd(dat_ummulqura, NM(dat_ummulqura), ymp);
+			if (UNLIKELY(!d)) {
+				/* not covered by the table */
+				goto nul;
+			}
 			break;
 		case SCALE_HIJRI_DIYANET:
 			d = ht2mjd(dat_diyanet, NM(dat_diyanet), ymp);
+			if (UNLIKELY(!d)) {
+				/* not covered by the table */
+				goto nul;
+			}
 			break;
 		default:
 			goto nul;
